@@ -51,6 +51,26 @@ MUTATORS = {'import', 'import_direct', 'del_graph', 'clone', 'add_node', 'del_no
             'unset_node', 'upd_nodes', 'upd_node_props', 'upd_link', 'unset_link', 'upd_link_props', 'merge'}
 
 
+def importer_equiv(op):
+    """what an importer call ['imp', g, nodes, edges, how, fmt] amounts to at the storage level by the documented
+    contract: ['refused', g] when the importer must raise before the storage is touched (an empty graph; for the
+    direct entry points a node without GraphID or more than one GraphID in the file - ABCGraphImporter.get_graph_id),
+    else the add_graph / add_graph_direct call on the parsed graph"""
+    _, g, nodes, edges, how, fmt = op
+    if not nodes:
+        return ['refused', g]
+    if how.endswith('direct'):
+        gids = [d.get('GraphID') for _, d in nodes]
+        if any(x is None for x in gids) or len(set(gids)) != 1:
+            return ['refused', g]
+        return ['import_direct', gids[0], nodes, edges]
+    return ['import', g, nodes, edges]
+
+
+def norm_op(op):
+    return importer_equiv(op) if op[0] == 'imp' else op
+
+
 def target(op):
     """graph id an operation writes to"""
     return op[2] if op[0] == 'clone' else op[1]
@@ -134,8 +154,42 @@ class Backend:
             self.cls = m.NetworkXPropertyGraphDisjoint
         self.storage = self.imp.storage
 
-    def graph(self, g):
-        return self.cls(graph_id=g, importer=self.imp)
+    def graph(self, g, handle=0):
+        """LONG-LIVED graph objects: one primary handle per graph id for the whole history, plus a second handle
+        (also long-lived) that some steps use - client code keeps such objects around, so whatever they remember
+        must stay true when the graph is changed through another route"""
+        if not hasattr(self, 'handles'):
+            self.handles = {}
+        if (g, handle) not in self.handles:
+            self.handles[(g, handle)] = self.cls(graph_id=g, importer=self.imp)
+        return self.handles[(g, handle)]
+
+    def importer_call(self, op):
+        """['imp', g, nodes, edges, how, fmt]: the four importer entry points on a serialised graph"""
+        import json as _json, tempfile, os as _os
+        _, g, nodes, edges, how, fmt = op
+        G = self.nx.Graph()
+        for key, d in nodes:
+            G.add_node(str(key), **dict(d))
+        for a, b, d in edges:
+            G.add_edge(str(a), str(b), **dict(d))
+        text = '\n'.join(self.nx.generate_graphml(G)) if fmt == 'graphml' else _json.dumps(self.nx.readwrite.node_link_data(G))
+        if how == 'string':
+            self.imp.import_graph_from_string(graph_string=text, graph_id=g)
+        elif how == 'string_direct':
+            self.imp.import_graph_from_string_direct(graph_string=text)
+        else:
+            fd, path = tempfile.mkstemp(suffix='-' + fmt)
+            try:
+                with _os.fdopen(fd, 'w') as f:
+                    f.write(text)
+                if how == 'file':
+                    self.imp.import_graph_from_file(graph_file=path, graph_id=g)
+                else:
+                    self.imp.import_graph_from_file_direct(graph_file=path)
+            finally:
+                _os.remove(path)
+        return ['unit']
 
     def mk_nx(self, nodes, edges):
         G = self.nx.Graph()
@@ -145,17 +199,24 @@ class Backend:
             G.add_edge(a, b, **dict(d))
         return G
 
-    def call(self, op):
+    def call(self, op, step=0):
         k = op[0]
+        # every 5th step goes through the second long-lived handle (for delete graph: through the importer)
+        alt = step % 5 == 3
+        if k == 'imp':
+            return self.importer_call(op)
         if k == 'import':
             self.storage.add_graph(graph_id=op[1], graph=self.mk_nx(op[2], op[3]))
             return ['unit']
         if k == 'import_direct':
             self.storage.add_graph_direct(graph_id=op[1], graph=self.mk_nx(op[2], op[3]))
             return ['unit']
-        G = self.graph(op[1])
+        G = self.graph(op[1], 1 if alt else 0)
         if k == 'del_graph':
-            G.delete_graph()
+            if alt:
+                self.imp.delete_graph(graph_id=op[1])
+            else:
+                G.delete_graph()
             return ['unit']
         if k == 'clone':
             G.clone_graph(new_graph_id=op[2])
@@ -210,9 +271,9 @@ class Backend:
         if k == 'graph_exists':
             return ['bool', bool(G.graph_exists())]
         if k == 'matching':
-            return ['vals', sort_vals([cv(x) for x in G.find_matching_nodes(other_graph=self.graph(op[2]))])]
+            return ['vals', sort_vals([cv(x) for x in G.find_matching_nodes(other_graph=self.graph(op[2], 1 if alt else 0))])]
         if k == 'merge':
-            G.merge_nodes(op[2], self.graph(op[3]), copy.deepcopy(op[4]))
+            G.merge_nodes(op[2], self.graph(op[3], 1 if alt else 0), copy.deepcopy(op[4]))
             return ['unit']
         raise ValueError(op)
 
@@ -238,10 +299,10 @@ def run_history(kind, ops):
     b = Backend(kind)
     out = []
     last = [[], []] if kind == 'shared' else []      # the empty store
-    for op in ops:
+    for step, op in enumerate(ops):
         op_in = copy.deepcopy(op)
         try:
-            r = ['ok', b.call(op)]
+            r = ['ok', b.call(op, step)]
         except BaseException as e:     # the class is the observation; messages are never compared
             r = ['err', EXN.get(type(e).__name__, 'EOther'), type(e).__name__]
         assert op == op_in, 'operation arguments were modified by the call'
@@ -321,6 +382,10 @@ def s(x):
 def q_op(op):
     k = op[0]
     od = lambda d: copt(d, q_dict)
+    if k == 'imp':
+        return q_op(importer_equiv(op))
+    if k == 'refused':
+        return '(OGraphExists %s)' % s(op[1])      # changes nothing, whatever the store holds
     if k == 'import':
         return '(OImport %s %s)' % (s(op[1]), q_igraph(op[2], op[3]))
     if k == 'import_direct':
@@ -532,6 +597,7 @@ class Shadow:
         return rng.choice(nids), rng.choice(nids), rng.choice(RELS)
 
     def apply(self, op):
+        op = norm_op(op)
         k = op[0]
         g = op[1]
         if k in ('import', 'import_direct'):
@@ -845,6 +911,67 @@ def cross_link_scenario(rng, extra=8):
     sh.apply(ops[-1])
     for _ in range(extra):
         op = gen_op(rng, sh, kinds, ws, GIDS[:3], NIDS[:5], identity_rate=0.0, malformed=0.05)
+        sh.apply(op)
+        ops.append(op)
+    return ops
+
+
+def gen_importer_op(rng, gids=GIDS[:3], nids=NIDS[:5], live=()):
+    """an importer entry point on a serialised generated graph; the direct variants sometimes carry MIXED GraphIDs
+    (first node names one graph, a later node another, preferably one that lives in the store) or lack a GraphID"""
+    how = rng.choice(['string', 'string_direct', 'file', 'file_direct', 'string_direct'])
+    fmt = rng.choice(['graphml', 'json'])
+    g = rng.choice(gids)
+    nodes, edges = gen_igraph(rng, g, direct=how.endswith('direct'), malformed=0.05, gids=gids, nids=nids)
+    if how.endswith('direct') and nodes:
+        r = rng.random()
+        if r < 0.35 and len(nodes) >= 1:
+            others = [x for x in (list(live) or gids) if x != g] or [x for x in gids if x != g]
+            j = rng.randrange(1, len(nodes)) if len(nodes) > 1 else 0
+            if j > 0:
+                nodes[j][1]['GraphID'] = rng.choice(others)
+        elif r < 0.42:
+            nodes[rng.randrange(len(nodes))][1].pop('GraphID', None)
+    return ['imp', g, nodes, edges, how, fmt]
+
+
+def emptying_scenario(rng, extra=4):
+    """a graph is asked whether it exists, then loses its last node by a route other than its own delete_graph
+    (delete_node of each node, a merge that absorbs its only node, delete through another handle / the importer),
+    with graph_exists / node_exists / listings asked again and again around it"""
+    ga, gb = rng.sample(GIDS[:3], 2)
+    na = rng.sample(NIDS[:5], rng.choice([1, 1, 2]))
+    ops = []
+    for n in na:
+        ops.append(['add_node', ga, n, rng.choice(CLASSES[:2]), None])
+    ops.append(['add_node', gb, na[0], rng.choice(CLASSES[:2]), None])
+    ask = lambda g: [['graph_exists', g], ['list_ids', g], ['node_exists', g, na[0], CLASSES[0]], ['by_class', g, CLASSES[0]]]
+    ops += [['graph_exists', ga], ['graph_exists', gb]] + rng.sample(ask(ga), 2)
+    route = rng.choice(['del_nodes', 'merge', 'del_graph', 'del_nodes'])
+    if route == 'del_nodes':
+        for n in na:
+            ops.append(['del_node', ga, n])
+            ops.append(['graph_exists', ga])
+    elif route == 'merge':
+        for n in na[1:]:
+            ops.append(['del_node', ga, n])
+        ops.append(['merge', gb, na[0], ga, None])
+    else:
+        while len(ops) % 5 != 3:                       # the step that goes through the importer / second handle
+            ops.append(rng.choice(ask(ga)))
+        ops.append(['del_graph', ga])
+    ops += [['graph_exists', ga]] + ask(ga)
+    ops.append(['merge', gb, na[0], ga, None])         # the other graph must exist for a merge
+    ops.append(['matching', gb, ga])
+    ops.append(['add_node', ga, na[0], CLASSES[0], None])
+    ops.append(['graph_exists', ga])
+    kinds = [k for k in DEFAULT_WEIGHTS]
+    ws = [DEFAULT_WEIGHTS[k] for k in kinds]
+    sh = Shadow()
+    for op in ops:
+        sh.apply(op)
+    for _ in range(extra):
+        op = gen_op(rng, sh, kinds, ws, GIDS[:3], NIDS[:5], identity_rate=0.0, malformed=0.0, prefer_fresh=0.8)
         sh.apply(op)
         ops.append(op)
     return ops
